@@ -244,9 +244,15 @@ def make_turtlemd(root, masses, pos, temperature=1.0, boltzmann=1.0, integrator=
         if user_seed is not None:
             integ["settings"]["seed"] = user_seed  # a stray user setting must not replace the job's seed
     n = len(masses)
+    if dim == 3:
+        potential = {"class": "LennardJones", "settings": {"parameters": {1: {"sigma": 1.0, "epsilon": 0.6, "rcut": 8.0} if forces else {"sigma": 0.3, "epsilon": 0.0, "rcut": 0.5}}}}
+    elif dim == 2:  # as in the repository's 2D examples
+        potential = {"class": "DoubleWellPair", "settings": {"parameters": {"rzero": 1.0, "height": 6.0, "width": 0.25}}}
+    else:
+        potential = {"class": "DoubleWell", "settings": {"a": 1.0, "b": 2.0, "c": 0.0}}
     eng = TurtleMDEngine(
         timestep, subcycles, temperature, boltzmann, integ,
-        {"class": "LennardJones", "settings": {"parameters": {1: {"sigma": 1.0, "epsilon": 0.6, "rcut": 8.0} if forces else {"sigma": 0.3, "epsilon": 0.0, "rcut": 0.5}}}},
+        potential,
         {"mass": list(masses), "name": ["Ar"] * n, "pos": [list(p[:dim]) for p in pos]},
         {"periodic": [True] * dim, "low": [0.0] * dim, "high": [50.0] * dim},
     )
